@@ -18,7 +18,7 @@ place_demo() {
 }
 dirs=$(place_demo)
 pk=""; for x in $dirs; do pk="$pk ./$x"; done
-run_demo() { (cd "$d" && timeout 300 go test ${RACE:+-race} -vet=off -count=1 -run 'Seed|seed|ZZ' $pk 2>&1 | tail -15); }
+run_demo() { (cd "$d" && timeout 300 go test ${RACE:+-race} -vet=off -count=1 -run "${SEED_RUN:-Seed|seed|ZZ}" $pk 2>&1 | tail -15); }
 out1=$(run_demo); echo "$out1" | grep -q '^ok' && ! echo "$out1" | grep -q 'FAIL' ; pristine_ok=$?
 (cd "$d" && git apply "$src/patch.diff") || { echo "patch does not apply"; exit 3; }
 (cd "$d" && go build ./... ) || { echo "patched tree does not build"; exit 3; }
